@@ -50,6 +50,10 @@ func c06NextStep(p, n int, input string) {
 		zzverif.Assert(lx.pos > old, "no progress: a non-EOF token was returned without consuming input")
 	}
 	_ = p + n
+	// probes compared between the engine's path and the native replay of its model
+	zzverif.Observe("type", int(tok.Type))
+	zzverif.Observe("end", tok.End.Offset)
+	zzverif.Observe("pos", lx.pos)
 	zzverif.Reach("C06.next.end")
 }
 
